@@ -20,6 +20,8 @@ Decided:
          through a local) without a dominating non-emptiness test - that IndexError would escape
   R02.7  the fields of SimulationParameters (height window, cap, temperature limits, unmet-design policy) are written by
          its constructor only - no search overrides the user's policy or limits on the shared object
+  R02.8  no handler around a call of the search entry points can turn the search's ValueError into a normal return
+         (one recorded exception: the scan over candidate lists in BisectionZD.search_successive)
   R02.6  maybe-None use: in the search classes no path reaches len() / subscript / return-as-coordinates
          with a local that is still None
 
@@ -61,7 +63,43 @@ def check(prog: Program, tier: str) -> Result:
     _raise_discipline(prog, res)
     _empty_selection(prog, res)
     _inputs_read_only(prog, res)
+    _search_error_reaches_caller(prog, res)
     return res
+
+
+SEARCH_ENTRY = {"find_design", "search", "search_successive", "calculate_excess", "initialize_ghe", "size"}
+SWALLOW_ACCEPT = {
+    "ghedesigner.search_routines.BisectionZD.search_successive": "a candidate list on which the search fails ends the scan of lists; the lists scanned before it decide (R05.3)",
+}
+
+
+def _search_error_reaches_caller(prog: Program, res: Result):
+    """R02.8: the ValueError with which a search gives up reaches whoever started the run: no handler for ValueError / Exception
+    around a call of the search entry points can complete without raising (returning a status code instead leaves the object
+    with the PREVIOUS design, and the command-line worker - which ignores the status - then fails with another exception type)."""
+    n = 0
+    for q, fi in sorted(prog.funcs.items()):
+        for t in walk_no_nested(fi.node):
+            if not isinstance(t, ast.Try):
+                continue
+            called = {(attr_chain(c.func) or "").split(".")[-1] for b_ in t.body for c in ast.walk(b_) if isinstance(c, ast.Call)}
+            if not (called & SEARCH_ENTRY):
+                continue
+            for h in t.handlers:
+                names = [attr_chain(x) for x in (h.type.elts if isinstance(h.type, ast.Tuple) else [h.type])] if h.type is not None else [None]
+                if not any(nm in (None, "ValueError", "Exception", "BaseException") for nm in names):
+                    continue
+                n += 1
+                always_raises = bool(h.body) and isinstance(h.body[-1], ast.Raise) and not any(isinstance(x, (ast.Return, ast.Break, ast.Continue)) for b_ in h.body for x in ast.walk(b_))
+                acc = SWALLOW_ACCEPT.get(q)
+                ok = always_raises or acc is not None
+                res.ob("R02.8", f"{q}: the handler for {names} around {sorted(called & SEARCH_ENTRY)} " + ("re-raises on every path" if always_raises else f"is accepted: {acc}" if acc else "can complete without raising"), ok, prog.loc(fi, h))
+                if not ok:
+                    res.violation("R02.8", f"swallowed|{q}|{sorted(called & SEARCH_ENTRY)}", prog.loc(fi, h), q,
+                                  f"a ValueError raised by {sorted(called & SEARCH_ENTRY)} can be turned into a normal return by this handler: the run then neither ends with the error nor with a design of ITS inputs "
+                                  "(the object keeps the previous design; the command-line worker ignores the status and fails later with another exception type)")
+    res.count("search_error_handlers", n)
+    res.floor("search_error_handlers", 1)
 
 
 def _inputs_read_only(prog: Program, res: Result):
@@ -963,6 +1001,10 @@ def _guarded_nonempty(fn, name: str, use: ast.AST) -> bool:
 
 
 VARIANTS = [
+    Variant("find_design reports a failed search as a status code when throw is off (seeded C02_h)", "break",
+            [("ghedesigner.manager", "        self._search = self._design.find_design()\n", "        try:\n            self._search = self._design.find_design()\n        except ValueError as error:\n            print(f\"Design search failed: {error}\", file=stderr)\n            if throw:\n                raise\n            return 1\n")], "R02.8"),
+    Variant("find_design logs a failed search and re-raises it", "benign",
+            [("ghedesigner.manager", "        self._search = self._design.find_design()\n", "        try:\n            self._search = self._design.find_design()\n        except ValueError as error:\n            print(f\"Design search failed: {error}\", file=stderr)\n            raise\n")]),
     Variant("the outer pass of the nested search overrides the user's unmet-design policy and restores it only on failure (seeded C02_g)", "break",
             [(SR, "        selection_key, _ = self.search()\n\n        self.calculated_temperatures_nested.append(self.calculated_temperatures)",
               "        unmet_policy = self.sim_params.continue_if_design_unmet\n        self.sim_params.continue_if_design_unmet = True\n        try:\n            selection_key, _ = self.search()\n        except ValueError:\n            self.sim_params.continue_if_design_unmet = unmet_policy\n            raise\n\n        self.calculated_temperatures_nested.append(self.calculated_temperatures)")], "R02.7"),
